@@ -243,7 +243,8 @@ package unknown
 // Every Binary.Write* call in read is preceded by an ensureBytesLen that makes room for exactly what it writes; the
 // writers themselves (loop-free, inlined) index and slice the buffer they are given. What is proved is safety and the
 // offset discipline (0 <= offset <= len(*buf), offsets only grow); the bytes written through sub-slices are not
-// modelled (value-semantics slices), so "Append stores the encoding of what it read" is NOT claimed.
+// modelled (value-semantics slices), so "Append stores the encoding of what it read" is NOT claimed. The nesting budget
+// is spent per nesting level: no loop over the elements of a container changes it.
 
 //@ func ensureBytesLen(buf *[]byte, offset, l int)
 //@   requires buf != nil && 0 <= offset && offset <= len(*buf) && 0 <= l
@@ -254,10 +255,10 @@ package unknown
 //@   requires buf != nil && iprot != nil && 0 <= offset && offset <= len(*buf)
 //@   ensures old(offset) <= noffset && noffset <= len(*buf) && len(*buf) >= old(len(*buf))
 //@   modifies *buf
-//@   loop 1 invariant 0 <= offset && offset <= len(*buf) && old(offset) <= offset && len(*buf) >= old(len(*buf))
-//@   loop 2 invariant 0 <= offset && offset <= len(*buf) && old(offset) <= offset && len(*buf) >= old(len(*buf))
-//@   loop 3 invariant 0 <= offset && offset <= len(*buf) && old(offset) <= offset && len(*buf) >= old(len(*buf))
-//@   loop 4 invariant 0 <= offset && offset <= len(*buf) && old(offset) <= offset && len(*buf) >= old(len(*buf))
+//@   loop 1 invariant 0 <= offset && offset <= len(*buf) && old(offset) <= offset && len(*buf) >= old(len(*buf)) && maxDepth == old(maxDepth)
+//@   loop 2 invariant 0 <= offset && offset <= len(*buf) && old(offset) <= offset && len(*buf) >= old(len(*buf)) && maxDepth == old(maxDepth)
+//@   loop 3 invariant 0 <= offset && offset <= len(*buf) && old(offset) <= offset && len(*buf) >= old(len(*buf)) && maxDepth == old(maxDepth)
+//@   loop 4 invariant 0 <= offset && offset <= len(*buf) && old(offset) <= offset && len(*buf) >= old(len(*buf)) && maxDepth == old(maxDepth)
 
 //@ func (fs *Fields) Append(xprot TProtocol, name string, fieldType TType, id int16) error
 //@   requires fs != nil
